@@ -15,6 +15,7 @@ package main
 import (
 	"fmt"
 	"sort"
+	"strings"
 	"sync"
 	"time"
 
@@ -213,22 +214,28 @@ func (s *sim) ancestorAt(id int, h uint64) int {
 }
 
 func projEq(a, b proj) string {
+	// finality first: a recorded finding about the best block must not hide a difference in finality
+	if a.Root != b.Root {
+		return fmt.Sprintf("finalized %d vs %d", a.Root, b.Root)
+	}
+	var ids []int
+	for id := range a.Status {
+		ids = append(ids, id)
+	}
+	sort.Ints(ids)
+	for _, id := range ids {
+		if b.Status[id] != a.Status[id] {
+			return fmt.Sprintf("status of checkpoint %d: %s vs %s", id, a.Status[id], b.Status[id])
+		}
+	}
 	if !node.SetEq(node.Keys2(a.Stored), b.Stored) {
 		return fmt.Sprintf("stored %v vs %v", node.Keys2(a.Stored), node.Keys2(b.Stored))
 	}
 	if a.Best != b.Best {
 		return fmt.Sprintf("best %d vs %d", a.Best, b.Best)
 	}
-	if a.Root != b.Root {
-		return fmt.Sprintf("finalized %d vs %d", a.Root, b.Root)
-	}
-	for id, st := range a.Status {
-		if b.Status[id] != st {
-			return fmt.Sprintf("status of checkpoint %d: %s vs %s", id, st, b.Status[id])
-		}
-	}
-	for h, id := range a.Idx {
-		if b.Idx[h] != id {
+	for h := 0; h < 16; h++ {
+		if id, ok := a.Idx[h]; ok && b.Idx[h] != id {
 			return fmt.Sprintf("index at height %d: %d vs %d", h, id, b.Idx[h])
 		}
 	}
@@ -439,7 +446,8 @@ func crashCase(steps []step, n, me int) (points int, dvs []*divergence) {
 					cls = "mid-epoch-blocks-stored"
 				}
 			}
-			dvs = append(dvs, &divergence{last, "C19", "no-convergence:" + cls, fmt.Sprintf("%s: after re-delivering every block and vote the restarted node differs from the crash-free node: %s", what, d)})
+			comp := strings.Fields(d)[0] // stored | best | finalized | status | index
+			dvs = append(dvs, &divergence{last, "C19", "no-convergence:" + comp + ":" + cls, fmt.Sprintf("%s: after re-delivering every block and vote the restarted node differs from the crash-free node: %s", what, d)})
 			continue
 		}
 	}
